@@ -707,6 +707,15 @@ def coll_oracle(interp, env, f, args, t, bb, path):
         return It(v0.fields)
     if nm == "into_iter" and isinstance(v0, Agg) and v0.name in ("core::option::Option", "core::result::Result"):
         return It(v0.fields[:1] if v0.variant in ("Some", "Ok") else [])
+    if nm in ("iter", "iter_mut") and sa in ("core::option::Option", "core::result::Result") and isinstance(v0, Agg) and v0.name == sa:
+        if v0.variant not in ("Some", "Ok"):
+            return It([])
+        inner = v0.fields[0]
+        if nm == "iter_mut" and isinstance(a0, (Ref, HRef)) and not isinstance(inner, (Ref, HRef)):
+            vi = 1 if v0.variant == "Some" else 0
+            ext = [["d", vi, v0.variant], ["f", 0, None]]
+            inner = Ref(a0.local, list(a0.proj) + ext, frame=a0.frame) if isinstance(a0, Ref) else HRef(a0.vid, a0.idx, tuple(a0.proj) + tuple(tuple(x) for x in ext))
+        return It([inner])
     if nm == "multizip" and isinstance(v0, Agg) and v0.kind == "tuple":
         tys = _split_top(((f.get("gargs") or ["", ""])[-1] or "")[1:-1])
         flds = list(v0.fields)
